@@ -13,3 +13,6 @@ export GOTOOLCHAIN=local GOFLAGS=-mod=mod GOPROXY=off GOSUMDB=off GONOSUMDB='*' 
 export VERIF_REPO="${VP_RUN_REPO:-${VERIF_REPO:-/repo}}"
 export VERIF_ROOT="${VERIF_ROOT:-/verif}"
 export VERIF_BUILD="$VERIF_ROOT/.build"
+# a build cache of our own: nothing else on the machine (an agent running `go clean -cache`, another user's go vet
+# with other GOGREEMENT_* settings) can pull entries from under a running check or leave stale vet facts in it
+export GOCACHE="$VERIF_BUILD/gocache"
